@@ -144,6 +144,13 @@ def g_run(rng, k, n):
     """n slots of one type: constant or arithmetic"""
     if k in "ih" and rng.random() < 0.6:
         bits = 32 if k == "i" else 64
+        if rng.random() < 0.25:
+            # near the ends of the type, large steps: runs that would wrap or overflow the span
+            hi = (1 << (bits - 1)) - 1
+            start = rng.choice([hi - rng.randint(0, 6), -hi - 1 + rng.randint(0, 6), -hi - 1, rng.randint(-hi, hi)])
+            step = rng.choice([1, -1, 1 << (bits - 3), -(1 << (bits - 3)), 1 << (bits - 2), rng.randint(-hi, hi) | 1])
+            wrapv = lambda v: (v + (1 << (bits - 1))) % (1 << bits) - (1 << (bits - 1))
+            return ["%s:%d" % (k, wrapv(start + j * step)) for j in range(n)]
         start = rng.randint(-1000, 1000)
         step = rng.choice([1, -1, 2, -2, 3, 10, -7, 100])
         return ["%s:%d" % (k, start + j * step) for j in range(n)]
@@ -173,6 +180,22 @@ def g_array(rng):
     el = g_elems(rng, k, n)
     ty = ord(el[-1][0]) if el else 32
     return ["a:%d:%d" % (ty, len(el))] + el
+
+def g_nested(rng):
+    """an array of arrays, possibly ending in >= 5 equal arrays (printed as a repetition of arrays)"""
+    out = []
+    for _ in range(rng.randint(0, 3)):
+        out += g_array_flat(rng)
+    if rng.random() < 0.6:
+        a = g_array_flat(rng)
+        out += a * rng.choice([5, 5, 6])
+    return ["a:97:%d" % len(out)] + out if out else ["a:32:0"]
+
+def g_array_flat(rng):
+    k = rng.choice("ihcsT")
+    n = rng.randint(1, 3)
+    el = [g_scalar(rng, rng.choice("TF") if k == "T" else k) for _ in range(n)]
+    return ["a:%d:%d" % (ord(el[-1][0]), len(el))] + el
 
 def g_run_at_end(rng):
     """a compressible run that ends exactly at the end of an array (followed by a value that
@@ -213,8 +236,10 @@ def gen_struct(rng, tier, dist, n):
                 k = rng.choice(RUN_KINDS)
                 m = rng.choice([2, 3, 4, 5, 5, 6, 7, 9, 12])
                 vals += g_run(rng, k, m); bump("run:%s" % k); bump("runlen=%d" % m)
-            elif q < 0.6:
+            elif q < 0.52:
                 vals += g_array(rng); bump("array")
+            elif q < 0.6:
+                vals += g_nested(rng); bump("nested-array")
             elif q < 0.75:
                 vals.append(g_time(rng)); bump("timetag")
             else:
@@ -229,11 +254,11 @@ def gen_struct(rng, tier, dist, n):
             addr = "/" + "/".join("".join(rng.choice("abcxyz019_#*?") for _ in range(rng.randint(1, 6)))
                                   for _ in range(rng.randint(1, 3)))
             bump("message")
-            kind = "xm" if any(v.startswith("t:") for v in vals) else "pm"
+            kind = "xm" if any(v.startswith("t:") or v.startswith("a:97:") for v in vals) else "pm"
             out.append("%s %d %d %d 1 %s %s" % (kind, ll, prec, compress, ";".join(vals), addr.encode().hex()))
         else:
             # time tags (other than in the Spec oracle) are not in the Coq model
-            kind = "xp" if any(v.startswith("t:") for v in vals) else "pp"
+            kind = "xp" if any(v.startswith("t:") or v.startswith("a:97:") for v in vals) else "pp"
             bump("stream:" + kind)
             out.append("%s %d %d %d 1 %s" % (kind, ll, prec, compress, ";".join(vals)))
     return out
@@ -288,9 +313,11 @@ def _item(toks, pos):
     """one element starting at toks[pos]: (expanded values, slots used)"""
     t = toks[pos]
     if t.startswith("a:"):
-        n = int(t.split(":")[2])
+        ty, n = int(t.split(":")[1]), int(t.split(":")[2])
         vals, used = _items(toks, pos + 1, n)
-        return [("a", tuple(vals))], 1 + n
+        # the array's element type is part of the value (T and F are one type; an empty array has none)
+        ty = 84 if ty == 70 else ty
+        return [("a", ty if vals else 0, tuple(vals))], 1 + n
     if t.startswith("R:"):
         _, num, hd = t.split(":")
         num, hd = int(num), int(hd)
@@ -375,11 +402,6 @@ def classify(case, impl, failure):
         return "signed-zero-run"
     if f[3] != "0":
         # the side conditions of C10_roundtrip_any_partial (PrettyProofs/ListProofs goodc)
-        for v in vals:
-            if v.startswith("i:") and abs(int(v[2:])) >= 1 << 30:
-                return "int-run-span-overflow"
-            if v.startswith("h:") and abs(int(v[2:])) >= 1 << 62:
-                return "int-run-span-overflow"
         for v in vals:
             if v[:2] in ("s:", "S:") and "2e2e2e" in v[2:] and bytes.fromhex(v[2:]).find(b"...") >= 0:
                 return "ellipsis-in-string-before-range"
